@@ -89,31 +89,6 @@ SIG_CALLEE_DELETED = "call-retargeted-by-whole-block-deletion-keeps-old-return-e
 SIG_SELF_CALL_DELETED = "wholly-deleted-block-called-its-own-function-return-edges-stay"
 
 
-def runs_off_end(case):
-    """C03 is about modules whose CFG matches their code.  A request that removes the
-    terminator (jmp/ret) of a block which is not followed by code leaves code that runs off
-    into data or the end of the section: nothing the rewriter could connect it to."""
-    text = case["text"]
-    for e in case.get("edits", []):
-        d = text[e["block"]]
-        if d["kind"] != "code":
-            continue
-        size = emodify.block_size(d)
-        nxt = e["block"] + 1
-        follows_code = nxt < len(text) and text[nxt]["kind"] == "code"
-        if follows_code:
-            continue
-        if e["op"] == "insert":
-            # code appended behind the last block's terminator that itself runs off the end
-            lines = [l.strip() for l in e["asm"].splitlines() if l.strip() and not l.strip().endswith(":") and not l.strip().startswith(".")]
-            last = lines[-1].split()[0] if lines else ""
-            if e["off"] == size and last not in ("jmp", "ret"):
-                return True
-        elif e["off"] + e["len"] == size and d["insns"][-1][0] in ("jmp", "ret"):
-            return True
-    return False
-
-
 def _func_of(dump, b):
     for f, bs in dump["aux"]["funcBlocks"]:
         if b in bs:
@@ -204,7 +179,7 @@ class Campaign:
             return
         ctx.count("applied")
         if self.facet == "C03":
-            if runs_off_end(case):
+            if emodify.runs_off_end(case):
                 ctx.count("out-of-domain:code-runs-off-the-end")
                 return
             reqs = [{"op": "cfg_check", "ir": o["after"], "insns": emodify.decode_insns(o["after"]), "nop": emodify.nop_bytes(case),
@@ -321,7 +296,7 @@ def run(ctx, facet, quick, thorough, with_corr=True):
         camp.add(c)
     n = ctx.budget(quick, thorough)
     for _ in range(n):
-        camp.add(emodify.gen_case(ctx.rng))
+        camp.add(emodify.gen_case(ctx.rng, cfg_domain=(facet == "C03")))
     camp.flush()
 
 
